@@ -946,7 +946,6 @@ func runMatrix(c *core.Ctx) {
 			}
 		}
 	}
-	c.Add("matrix_cells_total", 0)
 	for i, ce := range cells {
 		if !c.Mine(i) {
 			continue
@@ -1167,7 +1166,6 @@ func runLogic(c *core.Ctx) {
 		classes[a.n] = a.class
 	}
 	trees := level(as, 2)
-	c.Add("logic_trees_depth2_total", 0)
 	for i, t := range trees {
 		if !c.Mine(i) {
 			continue
